@@ -399,6 +399,11 @@ func vLiveGoroutines(prefix string) int {
 	return cnt
 }
 
+// vRecvMustOffer (engine only; no-op natively): from now on, repository code that takes a value
+// off a channel whose element type contains elem while done is closed must do so in a select
+// that also offers a receive on done; otherwise the assertion id fails.
+func vRecvMustOffer(elem string, done <-chan struct{}, id string) {}
+
 // vSyncMapSnapshot: keys and values of a sync.Map, alternating (natively through Range).
 func vSyncMapSnapshot(m *sync.Map) []interface{} {
 	var out []interface{}
